@@ -24,6 +24,7 @@ type c17Case struct {
 	Mode     srvMode `json:"mode"`
 	Via      string  `json:"via"`      // wire | client
 	Transfer string  `json:"transfer"` // data | bdat (data callback only)
+	Prior    bool    `json:"prior"`    // bdat only: an earlier chunked message on the connection failed in the middle of a chunk with another error
 }
 
 func init() {
@@ -35,6 +36,7 @@ func init() {
 var c17Msgs = []string{
 	"", "simple text", " leading space", "trailing space ", "5.1.1 looks like an enhanced code", "non-ASCII ünï ドメイン", "two words",
 	"SAMECODE begins with the very code that is set", "first line\nSAMECODE second line begins with the set code",
+	"100% full, %s and %d are not verbs %", "percent %v\nsecond %x line",
 	"line one\nline two", "l1\nl2\nl3", "first\n\nthird after empty", "a\n5.7.1 second line looks like a code", "tab\tinside",
 }
 
@@ -55,9 +57,12 @@ func c17Run(ctx *core.Ctx) {
 							continue
 						}
 						for _, code := range []int{450, 451, 452, 550, 552, 554, 599} {
-							for _, enh := range []string{"set", "unset", "none"} {
+							for _, enh := range []string{"set", "unset", "none", "mismatch"} {
 								for _, m := range c17Msgs {
 									emit(c17Case{Callback: cb, Code: code, Enh: enh, Msg: m, Mode: mode, Via: via, Transfer: tr})
+									if tr == "bdat" && via == "wire" && (code == 450 || code == 554) {
+										emit(c17Case{Callback: cb, Code: code, Enh: enh, Msg: m, Mode: mode, Via: via, Transfer: tr, Prior: true})
+									}
 								}
 							}
 						}
@@ -81,6 +86,10 @@ func (c c17Case) err() error {
 		e.EnhancedCode = smtp.EnhancedCode{c.Code / 100, 7, 13}
 	case "none":
 		e.EnhancedCode = smtp.NoEnhancedCode
+	case "mismatch":
+		// an enhanced code whose class differs from the reply code's: unusual, but the
+		// statement says "the same ... enhanced code"
+		e.EnhancedCode = smtp.EnhancedCode{9 - c.Code/100, 7, 1}
 	}
 	return e
 }
@@ -98,6 +107,8 @@ func (c c17Case) expected() (code int, enh [3]int, hasEnh bool, text string) {
 		return c.Code, [3]int{c.Code / 100, 7, 13}, true, c.Msg
 	case "unset":
 		return c.Code, [3]int{c.Code / 100, 0, 0}, true, c.Msg
+	case "mismatch":
+		return c.Code, [3]int{9 - c.Code/100, 7, 1}, true, c.Msg
 	}
 	return c.Code, [3]int{}, false, c.Msg
 }
@@ -117,7 +128,13 @@ func c17Hooks(rig *wire.Rig, c c17Case) {
 			return nil
 		}
 	case "data":
+		calls := 0
 		rig.BE.H.Data = func(sess int, r *rec.Reader, st smtp.StatusCollector) error {
+			calls++
+			if c.Prior && calls == 1 {
+				r.ReadN(3, 3)
+				return &smtp.SMTPError{Code: 451, EnhancedCode: smtp.EnhancedCode{4, 3, 0}, Message: "v#prior failure of the earlier message"}
+			}
 			r.ReadAll(64)
 			return e
 		}
@@ -130,9 +147,12 @@ func c17Exec(ctx *core.Ctx, c c17Case) {
 		if c.Enh == "unset" {
 			code = fmt.Sprintf("%d.0.0", c.Code/100)
 		}
+		if c.Enh == "mismatch" {
+			code = fmt.Sprintf("%d.7.1", 9-c.Code/100)
+		}
 		c.Msg = strings.ReplaceAll(c.Msg, "SAMECODE", code)
 	}
-	ctx.Eval(fmt.Sprintf("%s|%v|%d|%s|%q|%s|%s|%s", c.Callback, c.Plain, c.Code, c.Enh, c.Msg, c.Mode, c.Via, c.Transfer), true)
+	ctx.Eval(fmt.Sprintf("%s|%v|%d|%s|%q|%s|%s|%s|%v", c.Callback, c.Plain, c.Code, c.Enh, c.Msg, c.Mode, c.Via, c.Transfer, c.Prior), true)
 	rig := newRig(c.Mode, nil)
 	c17Hooks(rig, c)
 	p := rig.Dial()
@@ -152,6 +172,12 @@ func c17Exec(ctx *core.Ctx, c c17Case) {
 			return rs
 		}
 		rs := step(c.Mode.hello() + "\r\n")
+		if c.Prior {
+			step("MAIL FROM:<s0@x.test>\r\n")
+			step("RCPT TO:<good@x.test>\r\n")
+			p.SendStr("BDAT 40\r\n")
+			step("0123456789012345678901234567890123456789")
+		}
 		if c.Callback == "newsession" {
 			target = rs
 		} else {
